@@ -73,6 +73,10 @@ def _strategy(draw):
         defines["FC_B"] = [_num(draw)]
         # a macro that stands for the whole parameter list, function type included
         defines["gb_full"] = ["1", _num(draw), _num(draw)]
+    stale = {}
+    if defines and draw(st.integers(0, 2)) == 0:
+        for name in draw(st.lists(st.sampled_from(sorted(defines)), min_size=1, max_size=3, unique=True)):
+            stale[name] = (["1"] if name == "gb_full" else []) + [_num(draw) for _ in range(len(defines[name]) - (1 if name == "gb_full" else 0))]
     tables = {sec: [] for sec in NAT}
     mols = []
     for mi in range(draw(st.sampled_from([1, 1, 2, 3]))):
@@ -143,7 +147,7 @@ def _strategy(draw):
         # a molecule name may stand on several lines of [ molecules ], also with other names in between
         order.insert(draw(st.integers(0, len(order))), draw(st.sampled_from(order)))
     return {"comb": comb, "gen_pairs": draw(st.booleans()), "opls": opls, "atomtypes": atomtypes,
-            "nonbond": nonbond, "mols": mols, "mol_order": order, "tables": tables, "defines": defines,
+            "nonbond": nonbond, "mols": mols, "mol_order": order, "tables": tables, "defines": defines, "stale_defines": stale,
             "rng": draw(st.integers(0, 2**31 - 1))}
 
 
@@ -181,6 +185,10 @@ def render(spec):
     lines = []
     if spec["opls"]:
         lines.append("#define _FF_OPLS")
+    for name, values in spec.get("stale_defines", {}).items():
+        # an earlier definition of a macro that is defined again below (a force-field default overridden by the
+        # user): the later definition is the one in force
+        lines.append(f"#define {name} " + " ".join(values))
     for name, values in spec["defines"].items():
         lines.append(f"#define {name} " + " ".join(values))
     lines += ["[ defaults ]", f"1 {spec['comb']} {'yes' if spec['gen_pairs'] else 'no'} 1.0 1.0", "[ atomtypes ]"]
